@@ -151,7 +151,15 @@ pub fn run(ctx: &mut Ctx) {
                 (res.x.clone(), res.s.clone(), res.z.clone())
             };
             let finite = x.iter().chain(&s).chain(&z).all(|v| v.is_finite());
-            if finite {
+            // a run that ends WITHOUT a verdict after its homogenisation scalars have grown beyond 1e100 (equality-only
+            // problems whose delta-tau equation has degenerated, 100+ iterations): products of internal quantities
+            // overflow and quotients underflow inside the solver, its figures are NaN or 0.0, and nothing is claimed
+            // about them (same kind of limit as the 1e150 one below; a run that DOES reach a verdict is judged in full)
+            let internal_overflow = !infeas && !matches!(res.status, SolverStatus::Solved | SolverStatus::AlmostSolved) && fe.as_ref().map(|e| e.τ.max(e.κ) > 1e100).unwrap_or(false);
+            if internal_overflow {
+                ctx.bump("runs_without_verdict_with_tau_or_kappa_beyond_1e100_(figures_not_judged)");
+            }
+            if finite && !internal_overflow {
                 let ev = kkt::evaluate(&p, &x, &s, &z, &pm.keep, bound, &pm.ceff);
                 if !infeas {
                     // rounding bound of an f64 evaluation: 8 * [64 u (n+m+3) sum|terms|]
